@@ -24,6 +24,9 @@ Apply(pp, l) ==
     [] l[1] = "load" -> LET s == RestoreAll(pp, Subs(l[2]), <<>>) IN
                         [ev |-> WrFrame(4113, l[2], LOAD), p |-> s.p, x |-> s.out \o <<WrOk(4113, l[2])>> \o RamChg(pp, s.p)]
     [] l[1] = "badsig" -> [ev |-> WrFrame(l[2], l[3], l[4]), p |-> pp, x |-> <<AbortAny(l[2], l[3])>>]
+    \* an expedited download that announces only l[4] = 1..3 data bytes while the unused bytes of the frame complete the signature:
+    \* the value written is NOT the signature ("any other value is refused and touches neither RAM nor NVM")
+    [] l[1] = "shortsig" -> [ev |-> <<"rx", SdoRx, 8, 35 + 4 * (4 - l[4])>> \o Mx(l[2], l[3]) \o (IF l[2] = 4112 THEN SAVE ELSE LOAD), p |-> pp, x |-> <<AbortAny(l[2], l[3])>>]
     [] l[1] = "poke" -> [ev |-> <<"para_poke", 0, l[2], l[3]>>, p |-> [pp EXCEPT !.ram[l[2] + 1] = l[3]], x |-> RamChg(pp, [pp EXCEPT !.ram[l[2] + 1] = l[3]])]
     [] l[1] = "restart" -> LET s == Restart(pp) IN
                            [ev |-> <<"restart">>, p |-> s.p, x |-> s.out \o RamChg([pp EXCEPT !.ram = Dflt], s.p)]
@@ -47,7 +50,7 @@ StepOk(p0, l, a) ==
         \A i \in 1..Len(Dflt) : a.p.nvm[i] = (IF \E j \in 1..Len(Subs(l[2])) : LET g == Groups[Subs(l[2])[j]] IN g.en /\ i > g.off /\ i <= g.off + g.size
                                               THEN p0.ram[i] ELSE p0.nvm[i]))
   /\ (l[1] = "save" => a.p.ram = p0.ram)
-  /\ (l[1] = "badsig" => a.p = p0)
+  /\ (l[1] \in {"badsig", "shortsig"} => a.p = p0)
   /\ (l[1] = "load" => a.p.nvm = p0.nvm)
   \* after a restart without driver fault the parameters of every group equal the stored image
   /\ (l[1] = "restart" /\ p0.fault = 0 => \A k \in 1..N : Slice(a.p.ram, Groups[k].off, Groups[k].size) = Slice(p0.nvm, Groups[k].off, Groups[k].size))
